@@ -196,8 +196,8 @@ def step (st : St) (op : List String) : Option (St × String) :=
   | ["setfr", i, f] => do let a ← var? st i; pure (unitRes st (setFrame st.h a f))
   -- a frame assignment the environment makes fail: `iso` — the target is a frame (orientation of `f`) whose centre
   -- has no link to any other; `eop` — no Earth-orientation data for the date under the 'error' policy
-  | ["setfrx", i, _, "iso"] => do let a ← var? st i; pure (unitRes st (setFrameTo st.h a (.reg "Isolated" 0) (some .value)))
-  | ["setfrx", i, f, "eop"] => do let a ← var? st i; pure (unitRes st (setFrame st.h a f (some .eop)))
+  | ["setfrx", i, _, "iso"] => do let a ← var? st i; pure (unitRes st (setFrameTo st.h a (.reg "Isolated" 0) (fun _ _ => some .value)))
+  | ["setfrx", i, f, "eop"] => do let a ← var? st i; pure (unitRes st (setFrame st.h a f (fun x y => if x = "EME2000" || y = "EME2000" then some .eop else none)))
   | ["ctor", i, o] => do
     let a ← var? st i
     if o = "1" then
